@@ -158,10 +158,28 @@ pub fn run_c07(ctx: &Ctx) -> (Report, String) {
         }
         rep.add("monotonicity_comparisons", n);
     }
+    // the per-colour mapping must not depend on where the pixel is or how large the picture is: a few
+    // large two-dimensional pictures and near-duplicate-neighbour contents, every pixel against the model
+    if !miri {
+        let mut crng = Rng::new(ctx.seed ^ 0xC07C, 0);
+        let mut sizes: Vec<(usize, usize)> = vec![(1280, 720), (1920, 1080), (2051, 514), (1084, 971), (4099, 9), (9, 4099), (64, 64), (43, 17)];
+        for _ in 0..4 {
+            sizes.push((1000 + crng.below(1600) as usize, 420 + crng.below(700) as usize));
+        }
+        for (i, (w, h)) in sizes.into_iter().enumerate() {
+            let before = rep.get("images_compared");
+            c08_image(&k, &mut crng, w, h, [0usize, 5, 3][i % 3], &mut rep);
+            if rep.get("images_compared") > before {
+                rep.count("context_images_compared");
+            }
+        }
+        // C08's helper files violations under C08-style signatures with property tag C08 in the replay; fine for a witness
+    }
     rep.exhaustive = Some(step == 1 && rep.distinct_enumerated == 1 << 24 && rep.violations.is_empty());
     rep.sample(4, || J::obj().set("picture", "512x2: Cb plane = 0..255, Cr plane constant, luma rows carry 4 consecutive Y values per chroma sample").set("calls_per_cr", 64).set("triples_per_call", 1024));
     rep.sample(4, || J::obj().set("picture", "7x1: pixels 4..6 go through the remainder path with chroma samples 2,3").set("model_coefficients", format!("{} {} {} {} {}", k.gray, k.cr2r, k.cr2g, k.cb2g, k.cb2b)));
     if ctx.is_main() && step == 1 {
+        rep.require("context_images_compared", 12);
         rep.require("remainder_path_triples", 1 << 24);
     }
     (rep, rule_c07())
@@ -228,6 +246,42 @@ fn fill_planes(rng: &mut Rng, w: usize, h: usize, fill: usize) -> (Vec<u8>, Vec<
                 for i in 0..cw {
                     cb[j * cw + i] = tb[(j % cy) * 8 + i % cx];
                     cr[j * cw + i] = tr[(j % cy) * 8 + i % cx];
+                }
+            }
+        }
+        5 => {
+            // near-duplicate neighbours: every 4-pixel group (and its chroma pair) starts as a copy of one
+            // pattern, then single samples are perturbed - shortcuts keyed on "same as the previous group" show here
+            let mut ty = [0u8; 4];
+            rng.fill(&mut ty);
+            let (tb, tr) = ([rng.byte(), rng.byte()], [rng.byte(), rng.byte()]);
+            let masks = [0x00u8, 0x0f, 0xf0, 0xff, 0x80, 0x01];
+            for j in 0..h {
+                for i in 0..w {
+                    y[j * w + i] = ty[i % 4];
+                }
+            }
+            for j in 0..ch {
+                for i in 0..cw {
+                    cb[j * cw + i] = tb[i % 2];
+                    cr[j * cw + i] = tr[i % 2];
+                }
+            }
+            let n = (w * h / 6).max(1);
+            for _ in 0..n {
+                match rng.below(3) {
+                    0 => {
+                        let p = rng.below((w * h) as u64) as usize;
+                        y[p] = if rng.chance(1, 2) { rng.byte() } else { y[p] ^ *rng.pick(&masks) };
+                    }
+                    1 => {
+                        let p = rng.below((cw * ch) as u64) as usize;
+                        cb[p] = if rng.chance(1, 2) { rng.byte() } else { *rng.pick(&masks) };
+                    }
+                    _ => {
+                        let p = rng.below((cw * ch) as u64) as usize;
+                        cr[p] = if rng.chance(1, 2) { rng.byte() } else { *rng.pick(&masks) };
+                    }
                 }
             }
         }
@@ -309,7 +363,7 @@ pub fn run_c08(ctx: &Ctx) -> (Report, String) {
         let mut rng = Rng::new(ctx.seed ^ 0xC08, s as u64);
         crate::mon::guarded(&mut rep, || J::obj().set("property", "C08").set("w", w), |rep| {
             for h in 1..=maxd {
-                for fill in (0..5).filter(|f| !ctx.miri() || *f == h % 5) {
+                for fill in (0..6).filter(|f| !ctx.miri() || *f == h % 6) {
                     c08_image(&k, &mut rng, w, h, fill, rep);
                 }
             }
@@ -332,14 +386,17 @@ pub fn run_c08(ctx: &Ctx) -> (Report, String) {
             extra.push((w, h));
         }
         // boundary-value ladder: one dimension around powers of two up to 2^17, the other tiny
-        for d in [8191usize, 8192, 8193, 16383, 16385, 32767, 32769, 65534, 65535, 65536, 65537, 131071, 131073] {
+        for d in [8191usize, 8192, 8193, 16383, 16385, 32767, 32769, 65534, 65535, 65536, 65537, 131071, 131073, 262143, 262145, 524287, 524289, 1048575, 1048577] {
             for s in [1usize, 2, 3] {
                 extra.push((d, s));
                 extra.push((s + 3, d));
             }
         }
-        extra.push((1024, 1024));
-        extra.push((2047, 1025));
+        // genuinely two-dimensional large pictures (more than 2^20 pixels), fixed and random
+        extra.extend([(1024, 1024), (2047, 1025), (1280, 720), (1920, 1080), (2051, 514), (1084, 971), (3, 349_530)]);
+        for _ in 0..6 {
+            extra.push((1000 + rng.below(1600) as usize, 420 + rng.below(700) as usize));
+        }
         if ctx.tier == Tier::Thorough {
             for (w, h) in [(1408, 1152), (1407, 1151), (1409, 3), (705, 577)] {
                 extra.push((w, h));
@@ -350,7 +407,7 @@ pub fn run_c08(ctx: &Ctx) -> (Report, String) {
         extra.push((3, 17));
     }
     for (w, h) in extra {
-        for fill in [0usize, 1, 3] {
+        for fill in [0usize, 3, 5] {
             c08_image(&k, &mut rng, w, h, fill, &mut rep);
         }
         rep.count("strips_and_formats");
@@ -365,7 +422,7 @@ pub fn run_c08(ctx: &Ctx) -> (Report, String) {
     rep.sample(4, || J::obj().set("sizes", format!("every (w,h) in 1..={} x 1..={}", maxd, maxd)).set("fills", "0 = uniform random, 1 = position-unique ramp (a shifted index changes the colour), 2 = extremes"));
     rep.exhaustive = Some(false);
     if ctx.is_main() && ctx.scale_pct == 100 {
-        rep.require("images_compared", (maxd * maxd * 5) as u64);
+        rep.require("images_compared", (maxd * maxd * 6) as u64);
         rep.require("remainder_path_pixels", 10000);
         rep.require("empty_picture_ok", 1);
     }
